@@ -193,16 +193,11 @@ func (w *responseWriter) writeZip(
 	// OK to use os.Stat instead of os.Lstat here.
 	fileInfo, err := os.Stat(outDirPath)
 	if err != nil {
-		if os.IsNotExist(err) {
-			if createOutDirIfNotExists {
-				if err := os.MkdirAll(outDirPath, 0755); err != nil {
-					return err
-				}
-			} else {
-				return err
-			}
+		// A missing directory is created when the archive is flushed, the same
+		// as for directory outputs.
+		if !os.IsNotExist(err) || !createOutDirIfNotExists {
+			return err
 		}
-		return err
 	} else if !fileInfo.IsDir() {
 		return fmt.Errorf("not a directory: %s", outDirPath)
 	}
@@ -226,6 +221,11 @@ func (w *responseWriter) writeZip(
 	w.closers = append(w.closers, func() (retErr error) {
 		// We're done writing all of the content into this
 		// readWriteBucket, so we zip it when we flush.
+		if createOutDirIfNotExists {
+			if err := os.MkdirAll(outDirPath, 0755); err != nil {
+				return err
+			}
+		}
 		file, err := os.Create(outFilePath)
 		if err != nil {
 			return err
